@@ -125,6 +125,13 @@ impl<Write: WriteHalf> WriteConnection<Write> {
         &self.socket
     }
 
+    /// Address and length of the send buffer (verification hook).
+    #[cfg(zlink_verif)]
+    #[doc(hidden)]
+    pub fn verif_buffer_range(&self) -> (usize, usize) {
+        (self.buffer.as_ptr() as usize, self.buffer.len())
+    }
+
     async fn write<T>(&mut self, value: &T) -> crate::Result<()>
     where
         T: Serialize + ?Sized + Debug,
